@@ -22,6 +22,9 @@ PAIRS = [('SO3', 'SE3'), ('SO2', 'SE2'), ('Quaternion', 'UnitQuaternion'),
 MAX_LEN = 40            # operations that would make an object longer are skipped
 LITS = ['ndarray', 'list_of_ndarray', 'none', 'scalar', 'tuple', 'str', 'numlist']
 
+# X([y1..yn]) with items of another class that the constructor documents as a conversion
+DOCUMENTED_LIST_CONVERSIONS = {('UnitQuaternion', 'SO3'), ('UnitQuaternion', 'SE3')}
+
 _classes = {}
 
 
@@ -305,6 +308,8 @@ class World:
         items = [self.ref(j) for j in rec['items']]
         if any(len(o.model) == 0 for o in items):
             return {'r': 'skip'}            # zero-valued item: behaviour left open
+        if any((cname, o.cname) in DOCUMENTED_LIST_CONVERSIONS for o in items):
+            return {'r': 'skip'}            # a documented conversion, not a wrong-class fault
         wrong = [o.cname for o in items if o.cname != cname]
         multi = [len(o.model) for o in items if len(o.model) > 1]
         expect = 'raise' if (wrong or multi) else 'ok'
